@@ -44,18 +44,66 @@ def _first_for(fn, pred):
     raise Shape("loop not found")
 
 
-def _value_test(test, value_name):
-    """A test on the value of a triple -> (guard, negated guard)."""
+_HELPERS = {}  # module-level one-line predicates of group_by.py: name -> (parameter, returned expression)
+
+
+def _load_helpers(gb):
+    """`def is_null(value): return value is None or value != value` and the like: a module-level function
+    of one parameter whose body (after a docstring) is a single `return <expression>`."""
+    _HELPERS.clear()
+    if gb.tree is None:
+        return
+    for n in gb.tree.body:
+        if isinstance(n, ast.FunctionDef) and len(n.args.args) == 1 and not (n.args.vararg or n.args.kwarg or n.args.kwonlyargs
+                                                                             or n.args.defaults or n.decorator_list):
+            body = [b for b in n.body if not (isinstance(b, ast.Expr) and isinstance(b.value, ast.Constant))]
+            if len(body) == 1 and isinstance(body[0], ast.Return) and body[0].value is not None:
+                _HELPERS[n.name] = (n.args.args[0].arg, body[0].value)
+
+
+def _need(conj, test):
+    if conj is None:
+        raise Shape("test %s is not a conjunction of tests on the value" % _u(test))
+    return conj
+
+
+def _value_test(test, value_name, depth=0):
+    """A test on the value of a triple -> (guards that hold when it is true, guards that hold when it is
+    false), each a conjunction (list) of `Guard`s or None when that side is not a conjunction."""
+    if depth > 6:
+        raise Shape("test too deep")
     if _is_name(test, value_name):
-        return "truthy", "falsy"
-    if isinstance(test, ast.UnaryOp) and isinstance(test.op, ast.Not) and _is_name(test.operand, value_name):
-        return "falsy", "truthy"
-    if isinstance(test, ast.Compare) and len(test.ops) == 1 and _is_name(test.left, value_name) \
-            and isinstance(test.comparators[0], ast.Constant) and test.comparators[0].value is None:
-        if isinstance(test.ops[0], ast.IsNot):
-            return "notNone", "isNone"
-        if isinstance(test.ops[0], ast.Is):
-            return "isNone", "notNone"
+        return ["truthy"], ["falsy"]
+    if isinstance(test, ast.UnaryOp) and isinstance(test.op, ast.Not):
+        a, b = _value_test(test.operand, value_name, depth + 1)
+        return b, a
+    if isinstance(test, ast.BoolOp):
+        parts = [_value_test(v, value_name, depth + 1) for v in test.values]
+        if isinstance(test.op, ast.And):
+            pos = None if any(p[0] is None for p in parts) else [g for p in parts for g in p[0]]
+            return pos, None
+        neg = None if any(p[1] is None for p in parts) else [g for p in parts for g in p[1]]
+        return None, neg
+    if isinstance(test, ast.Compare) and len(test.ops) == 1 and _is_name(test.left, value_name):
+        right = test.comparators[0]
+        if isinstance(right, ast.Constant) and right.value is None:
+            if isinstance(test.ops[0], ast.IsNot):
+                return ["notNone"], ["isNone"]
+            if isinstance(test.ops[0], ast.Is):
+                return ["isNone"], ["notNone"]
+        if _is_name(right, value_name):
+            # only a NaN differs from itself
+            if isinstance(test.ops[0], ast.NotEq):
+                return ["isNaN"], ["notNaN"]
+            if isinstance(test.ops[0], ast.Eq):
+                return ["notNaN"], ["isNaN"]
+    if isinstance(test, ast.Call) and not test.keywords and len(test.args) == 1 and _is_name(test.args[0], value_name):
+        f = _u(test.func)
+        if f in ("math.isnan", "isnan", "numpy.isnan", "np.isnan"):
+            return ["isNaN"], ["notNaN"]
+        if isinstance(test.func, ast.Name) and test.func.id in _HELPERS:
+            param, expr = _HELPERS[test.func.id]
+            return _value_test(expr, param, depth + 1)
     raise Shape("test %s" % _u(test))
 
 
@@ -125,8 +173,8 @@ def _walk_to(stmts, target, guards, value_name, env):
             if isinstance(st, ast.If):
                 a, b = _value_test(st.test, value_name)
                 if any(x is target for s2 in st.body for x in ast.walk(s2)):
-                    return _walk_to(st.body, target, g + [a], value_name, env)
-                return _walk_to(st.orelse, target, g + [b], value_name, env)
+                    return _walk_to(st.body, target, g + _need(a, st.test), value_name, env)
+                return _walk_to(st.orelse, target, g + _need(b, st.test), value_name, env)
             if isinstance(st, ast.Expr):
                 return g
             raise Shape("yield inside %s" % type(st).__name__)
@@ -135,7 +183,7 @@ def _walk_to(stmts, target, guards, value_name, env):
             continue
         if isinstance(st, ast.If) and st.body and isinstance(st.body[-1], ast.Continue) and not st.orelse:
             a, b = _value_test(st.test, value_name)
-            g.append(b)
+            g.extend(_need(b, st.test))
             continue
         raise Shape("statement before the yield: %s" % type(st).__name__)
     raise Shape("yield not reached")
@@ -211,12 +259,14 @@ def collect_body(gb):
                 return
             if isinstance(st, ast.If):
                 a, b = _value_test(st.test, vname)
-                run(st.body, g + [a], set(aliases))
-                run(st.orelse, g + [b], set(aliases))
+                if [x for x in st.body if not isinstance(x, (ast.Pass, ast.Continue))]:
+                    run(st.body, g + _need(a, st.test), set(aliases))
+                if [x for x in st.orelse if not isinstance(x, (ast.Pass, ast.Continue))]:
+                    run(st.orelse, g + _need(b, st.test), set(aliases))
                 if st.body and isinstance(st.body[-1], ast.Continue):
-                    g.append(b)
+                    g.extend(_need(b, st.test))
                 if st.orelse and isinstance(st.orelse[-1], ast.Continue):
-                    g.append(a)
+                    g.extend(_need(a, st.test))
                 continue
             if isinstance(st, ast.Assign) and len(st.targets) == 1 and isinstance(st.targets[0], ast.Name) \
                     and _u(st.value) == group_dict:
@@ -263,6 +313,35 @@ def label_formats(gb):
         raise Shape("%d label f-strings" % len(out))
     out.sort(key=lambda t: (t[0], t[1]))
     return [p for _, _, p in out]
+
+
+def result_cell(gb):
+    """`results = {<label f-string>: <cell> for func, col in aggregations}`: what is written under a label."""
+    fn = gb.func("aggregate", "GroupBy")
+    comps = [n for n in ast.walk(fn) if isinstance(n, ast.DictComp) and isinstance(n.key, ast.JoinedStr)
+             and len(n.generators) == 1 and _u(n.generators[0].iter) == "aggregations"]
+    if len(comps) != 1:
+        raise Shape("%d dict comprehensions over the aggregations" % len(comps))
+    comp = comps[0]
+    key = _u(comp.key)
+
+    def is_lookup(e):
+        if isinstance(e, ast.Call) and isinstance(e.func, ast.Attribute) and e.func.attr == "get" \
+                and isinstance(e.func.value, ast.Name) and len(e.args) == 1 and not e.keywords and _u(e.args[0]) == key:
+            return True
+        return isinstance(e, ast.Subscript) and isinstance(e.value, ast.Name) and _u(e.slice) == key
+
+    v = comp.value
+    if is_lookup(v):
+        return ["get"]
+    if isinstance(v, ast.BoolOp) and isinstance(v.op, ast.Or) and len(v.values) == 2 and is_lookup(v.values[0]) \
+            and isinstance(v.values[1], ast.Constant):
+        d = v.values[1].value
+        if d is None:
+            return ["getOrNone"]
+        if isinstance(d, int) and not isinstance(d, bool) and abs(d) < 10**9:
+            return ["getOrLit", d]
+    raise Shape("result cell %s" % _u(v)[:40])
 
 
 def _empty_branch(fn, test_text):
@@ -469,6 +548,7 @@ PINNED = {
                     ["AVG", ["ifEmpty", ["none"], ["div", ["decimal", ["sum"]], ["decimal", ["len"]]]]],
                     ["SUM", ["ifEmpty", ["none"], ["sum"]]]],
     "label_formats": [[["func"], ["lit", "("], ["col"], ["lit", ")"]]] * 4,
+    "result_cell": ["get"],
     "wrappers": [["max", "MAX", ""], ["min", "MIN", ""], ["sum", "SUM", ""], ["count", "COUNT", "*"], ["avg", "AVG", ""]],
     "aggregate_empty_header": True,
     "groups_empty_header": True,
@@ -499,6 +579,10 @@ def lean_bool(b):
 def generate(o):
     gb = Src("orso/group_by.py")
     df = Src("orso/dataframe.py")
+    try:
+        _load_helpers(gb)
+    except Exception:  # noqa: BLE001 - an unreadable module degrades item by item below
+        _HELPERS.clear()
     P = PINNED
     key = o.item("group_by._map.group_key", lambda: group_key(gb), P["group_key"])
     reg = o.item("group_by._map.registers", lambda: map_registers(gb), P["map_registers"])
@@ -509,6 +593,7 @@ def generate(o):
     aggs = o.item("group_by.aggregators", lambda: aggregators(gb), P["aggregators"])
     labels = o.item("group_by.aggregate.labels", lambda: label_formats(gb), P["label_formats"])
     wr = o.item("group_by.wrappers", lambda: wrappers(gb), P["wrappers"])
+    rc = o.item("group_by.aggregate.result_cell", lambda: result_cell(gb), P["result_cell"])
     aeh = o.item("group_by.aggregate.empty_header", lambda: aggregate_empty_header(gb), P["aggregate_empty_header"])
     geh = o.item("group_by.groups.empty_header", lambda: groups_empty_header(gb), P["groups_empty_header"])
     itm = o.item("dataframe.__iter__.materialises", lambda: iter_materialises(df), P["iter_materialises"])
@@ -534,6 +619,8 @@ def generate(o):
     t += "def aggregators : List (String × AExpr) := [%s]\n" % ", ".join("(%s, %s)" % (lean_str(k), lean_aexpr(e)) for k, e in aggs)
     t += "/-- every f-string of `aggregate` that builds a column label -/\n"
     t += "def labelFormats : List (List LabelPart) := [%s]\n" % ", ".join("[" + ", ".join(part(p) for p in f) + "]" for f in labels)
+    t += "/-- `aggregate`: the value written into a result row under a label -/\n"
+    t += "def resultCell : CellExpr := %s\n" % (".%s" % rc[0] if len(rc) == 1 else "(.%s %s)" % (rc[0], "%d" % rc[1] if rc[1] >= 0 else "(%d)" % rc[1]))
     t += "/-- the convenience wrappers: method, the function it asks `aggregate` for, the fixed column (\"\" = its argument) -/\n"
     t += "def wrappers : List (String × String × String) := [%s]\n" % ", ".join("(%s, %s, %s)" % tuple(lean_str(x) for x in w) for w in wr)
     t += "/-- `aggregate`: `if not result_set:` returns a frame with the header and no rows -/\n"
